@@ -4,7 +4,7 @@
    calc_rel ties the real document to it through the deltas of the summary. *)
 From Coq Require Import ZArith List Bool Lia.
 Import ListNotations.
-Require Import Grist.Model.ActionLog Grist.Proofs.ActionLog_proofs Grist.Proofs.ActionLog_calc Grist.Proofs.ActionLog_cells.
+Require Import Grist.Model.ActionLog Grist.Proofs.ActionLog_proofs Grist.Proofs.ActionLog_calc Grist.Proofs.ActionLog_cells Grist.Proofs.ActionLog_frame.
 Open Scope Z_scope.
 
 Ltac name_cases a b :=
@@ -444,6 +444,146 @@ Proof.
 Qed.
 
 (* ------------------------------------------------------------------------------------------------ *)
+(* any lossless doc action that keeps off the cells with a pending delta (SC1) *)
+
+Lemma dget_records : forall (sm : summary) t rows bb ba t' c r,
+  dget (with_table O sm t (fold_left (fun d r0 => mkTD O (pres_setdefault (td_before O d) r0 bb) (pres_set (td_after O d) r0 ba)
+                                                   (td_colren O d) (td_deltas O d)) rows (for_table O sm t))) t' c r =
+  dget sm t' c r.
+Proof.
+  intros sm t rows bb ba t' c r. unfold dget. rewrite delta_of_with_table; [reflexivity|].
+  apply (fold_pres_deltas O). reflexivity.
+Qed.
+
+Lemma defunct_is_defunct : forall n, is_defunct (defunct_name n) = true.
+Proof. reflexivity. Qed.
+
+Lemma dget_doc_ops : forall a s s' u ops (sm : summary),
+  apply_doc O a s = Ok (s', (u, ops)) -> is_rename O a = false -> (forall t c r, ~ lossy O a s t c r) ->
+  (forall t c r, touch O a t c r -> dget sm t c r = None) ->
+  (forall t c r, dget sm t c r <> None -> existing O s t c r) -> names_ok O s ->
+  forall t c r, dget (fold_left (sum_apply O) ops sm) t c r = dget sm t c r.
+Proof.
+  intros a s s' u ops sm H Hren Hloss Hav Hlive Hnames t1 c1 r1.
+  assert (Hdef_c : forall t c r, is_defunct c = true -> dget sm t c r = None).
+  { intros t c r Hd. destruct (dget sm t c r) eqn:E; [|reflexivity]. exfalso.
+    destruct (Hlive t c r) as [T [C [Hf [Hc _]]]]; [congruence|]. destruct (Hnames _ _ Hf) as [_ Hdc]. rewrite (Hdc _ _ Hc) in Hd. discriminate. }
+  assert (Hdef_t : forall t c r, is_defunct t = true -> dget sm t c r = None).
+  { intros t c r Hd. destruct (dget sm t c r) eqn:E; [|reflexivity]. exfalso.
+    destruct (Hlive t c r) as [T [C [Hf _]]]; [congruence|]. destruct (Hnames _ _ Hf) as [Hdt _]. rewrite Hdt in Hd. discriminate. }
+  destruct a; try discriminate; unfold apply_doc in H.
+  - destruct (find_table O s t) as [T|]; [|discriminate]. destruct (_ || _); [discriminate|].
+    destruct (negb _); [discriminate|]. destruct (add_records O T rows cols); cbn in H; [|discriminate].
+    inversion H; subst s' u ops. cbn [fold_left sum_apply]. apply dget_records.
+  - destruct (find_table O s t) as [T|]; [|discriminate].
+    remember (filter (fun r => zmem r (t_rows O T)) rows) as rows' eqn:Er.
+    destruct (list_eq_dec Z.eq_dec rows' []) as [Hnil|Hne].
+    + rewrite Hnil in H. inversion H; subst. reflexivity.
+    + rewrite (match_nonnil _ _ rows' _ _ Hne) in H. inversion H; subst s' u ops. cbn [fold_left sum_apply]. apply dget_records.
+  - destruct (find_table O s t) as [T|]; [|discriminate]. destruct (_ || _); [discriminate|].
+    destruct (negb _); [discriminate|]. destruct (old_values O (t_cols O T) rows cols); cbn in H; [|discriminate].
+    destruct (set_columns O (t_cols O T) rows cols); cbn in H; [|discriminate]. inversion H; subst s' u ops. reflexivity.
+  - destruct (find_table O s t) as [T|]; [|discriminate]. destruct (negb _); [discriminate|].
+    match type of H with context [add_records O ?T0 rows ?cs] => destruct (add_records O T0 rows cs) end; cbn in H; [|discriminate].
+    inversion H; subst s' u ops. cbn [fold_left sum_apply]. rewrite dget_records. apply dget_records.
+  - destruct (find_table O s t) as [T|]; [|discriminate]. destruct (has_column O T c); [discriminate|].
+    inversion H; subst s' u ops. cbn [fold_left sum_apply]. unfold dget. rewrite delta_of_with_table; reflexivity.
+  - destruct (find_table O s t) as [T|] eqn:Ef; [|discriminate]. destruct (find_col O (t_cols O T) c) as [C|] eqn:Ec; [|discriminate].
+    assert (Hform : ci_isformula (c_info O C) = false).
+    { destruct (ci_isformula (c_info O C)) eqn:E; [|reflexivity]. exfalso. apply (Hloss t c 0). cbn. split; [reflexivity|]. split; [reflexivity|]. eauto. }
+    rewrite Hform in H.
+    assert (Hops : ops = [SRenameColumn O t (Some c) (defunct_name c)]).
+    { match type of H with context [match ?l with [] => _ | _ => _ end] => destruct l end; inversion H; reflexivity. }
+    subst ops. cbn [fold_left]. rewrite dget_rencol.
+    name_cases t1 t; [|reflexivity]. subst t1. name_cases c1 (defunct_name c).
+    + subst c1. rewrite (Hdef_c t (defunct_name c) r1) by reflexivity.
+      destruct (td_find O (sm_tables O sm) t) as [td|]; [|reflexivity].
+      destruct (cd_find O (td_deltas O td) c); [|reflexivity]. apply Hav. cbn. auto.
+    + name_cases c1 c; [|reflexivity]. subst c1. symmetry. apply Hav. cbn. auto.
+  - destruct (find_table O s t) as [T|]; [|discriminate]. destruct (find_col O (t_cols O T) c) as [C|]; [|discriminate].
+    destruct (colinfo_eqb _ _); inversion H; subst s' u ops; reflexivity.
+  - destruct (find_table O s t); [discriminate|]. destruct (_ || _); [discriminate|].
+    inversion H; subst s' u ops. reflexivity.
+  - destruct (find_table O s t) as [T|]; [|discriminate].
+    assert (Hops : ops = [SRenameTable O (Some t) (defunct_name t)]) by (destruct (t_rows O T); inversion H; reflexivity).
+    subst ops. cbn [fold_left]. rewrite dget_rentab.
+    destruct (td_find O (sm_tables O sm) t) as [td|] eqn:Etd; [|reflexivity].
+    name_cases t1 (defunct_name t).
+    + subst t1. rewrite (Hdef_t (defunct_name t) c1 r1) by reflexivity. apply Hav. cbn. reflexivity.
+    + name_cases t1 t; [|reflexivity]. subst t1. symmetry. apply Hav. cbn. reflexivity.
+Qed.
+
+
+Lemma gi_doc_frame : forall s0 g m m' a,
+  gi s0 g m -> is_rename O a = false ->
+  (forall t c r, touch O a t c r -> dget (m_sum O m) t c r = None) ->
+  (forall t c r, ~ lossy O a (m_doc O m) t c r) -> act_names_ok O a ->
+  step O m (Doc O a) = Ok m' -> exists g', gi s0 g' m'.
+Proof.
+  intros s0 g m m' a [Htr Hwfg Hwfs Hstruct Hrel Hlive Hredo] Hren Hav Hloss Hact H.
+  destruct (step_doc_inv _ _ _ H) as [s' [u [ops [Ha ->]]]]. cbn [m_doc m_undo m_sum m_stored].
+  set (s := m_doc O m) in *. set (sm := m_sum O m) in *.
+  pose proof (calc_rel_seq_ex O g sm s Hrel) as Hseq.
+  pose proof (struct_ok_seq_ex O _ g s sm Hseq Hstruct) as Hstr_s.
+  destruct Hstr_s as [Hnames_s [Hkeys_s Hafter_s]].
+  (* the ghost takes the same action *)
+  destruct (apply_doc_cong O L a _ s g s' (u, ops) Hseq Ha) as [g' [[u2 ops2] [Hag Hsg']]].
+  rewrite (img_nonrename O) in Hsg' by exact Hren.
+  set (sm' := fold_left (sum_apply O) ops sm).
+  assert (Hd : forall t c r, dget sm' t c r = dget sm t c r).
+  { eapply dget_doc_ops; try eassumption. }
+  assert (Hnt : forall t c r, pending O sm t c r -> ~ touch O a t c r).
+  { intros t c r Hp Ht. apply Hp. apply (Hav t c r Ht). }
+  assert (Hund : forall x, In x (rev u) -> is_rename O x = false /\ forall t c r, pending O sm t c r -> ~ touch O x t c r).
+  { intros x Hx. apply in_rev in Hx. destruct (undo_touch O a s s' u ops Ha Hren x Hx) as [Hr Ht]. split; [exact Hr|].
+    intros t c r Hp Htx. apply (Hnt t c r Hp). apply Ht. exact Htx. }
+  assert (Hcre : forall t c r, existing O s t c r -> created O sm' t c r -> created O sm t c r).
+  { intros t c r Hex Hc. eapply (sig_step O); try eassumption.
+    rewrite (img_list_nonrename O) by (intros x Hx; apply (Hund x Hx)). exact Hc. }
+  exists g'. constructor; cbn [m_doc m_undo m_sum m_stored].
+  - (* undo *)
+    intros s1 Hs1.
+    pose proof (seq_ex_trans O L _ _ _ _ _ Hs1 (seq_ex_sym O L _ _ _ Hsg')) as H1.
+    destruct (undo_inverse O L a s Hwfs s' u ops Ha) as [sr [Hrep Hsr]].
+    destruct (replay_doc_cong O L _ _ _ _ _ (seq_ex_sym O L _ _ _ H1) Hrep) as [sx [Hrepx Hsx]].
+    rewrite (img_list_nonrename O) in Hsx by (intros x Hx; apply (Hund x Hx)).
+    pose proof (seq_ex_trans O L _ _ _ _ _ (seq_ex_trans O L _ _ _ _ _ (seq_ex_sym O L _ _ _ Hsx) Hsr) Hseq) as Hxg.
+    assert (Hxg' : seq_ex O (fun t c r => created O sm t c r \/ pending O sm t c r) sx g).
+    { eapply (seq_ex_restrict O); [exact Hxg|]. intros t c r Hex [[[Hc|Hp]|Hl]|Hp]; [| right; exact Hp | exfalso; exact (Hloss _ _ _ Hl) | right; exact Hp].
+      left. apply Hcre; [|exact Hc].
+      eapply (existing_seq O); [|exact Hex].
+      exact (seq_ex_trans O L _ _ _ _ _ (seq_ex_sym O L _ _ _ Hsx) Hsr). }
+    assert (Hfin : seq_ex O (created O sm) sx g).
+    { eapply (seq_ex_refine O); [exact Hxg'|]. intros t c r i1 v1 i2 v2 Hp Hc1 Hc2.
+      assert (Hfx : cellv O sx t c r = cellv O s1 t c r).
+      { eapply (replay_frame O); [exact Hrepx|]. intros x Hx. destruct (Hund x Hx) as [Hr Ht]. split; [exact Hr | apply Ht; exact Hp]. }
+      assert (Hfg : cellv O g' t c r = cellv O g t c r) by (eapply (frame O); [exact Hag | exact Hren | apply Hnt; exact Hp]).
+      rewrite Hfx in Hc1. destruct (seq_ex_cellv O _ _ _ _ _ _ _ _ Hs1 Hc1) as [v2' [Hc2' Hor]].
+      rewrite Hfg, Hc2 in Hc2'. inversion Hc2'; subst. destruct Hor as [Hc|Hv]; [|right; exact Hv].
+      left. apply Hcre; [|exact Hc]. apply Hlive. exact Hp. }
+    destruct (Htr sx Hfin) as [s2 [Hrep2 Hs2]]. exists s2. split; [|exact Hs2].
+    rewrite rev_app_distr, (replay_doc_app O), Hrepx. exact Hrep2.
+  - exact (apply_doc_wf O L _ _ _ _ Hwfg Hag).
+  - exact (apply_doc_wf O L _ _ _ _ Hwfs Ha).
+  - eapply (struct_ok_seq_ex O); [exact (seq_ex_sym O L _ _ _ Hsg')|].
+    eapply (struct_step O); [| exact Ha | exact Hloss | exact Hact]. split; [exact Hnames_s|]. split; assumption.
+  - apply (calc_rel_of O).
+    + eapply (seq_ex_weaken O); [|exact Hsg']. intros t c r Hp. unfold pending in *.
+      change (dget sm' t c r <> None). rewrite Hd. exact Hp.
+    + intros t c r i v ig vg b a0 Hcs Hcg Hdl. change (dget sm' t c r = Some (b, a0)) in Hdl. rewrite Hd in Hdl.
+      assert (Hp : pending O sm t c r) by (unfold pending; change (dget sm t c r <> None); rewrite Hdl; discriminate).
+      rewrite (frame O a s s' _ t c r Ha Hren (Hnt _ _ _ Hp)) in Hcs.
+      rewrite (frame O a g g' _ t c r Hag Hren (Hnt _ _ _ Hp)) in Hcg.
+      destruct (calc_rel_cellv O g sm s t c r i v Hrel Hcs) as [vg0 [Hcg0 Hm]].
+      rewrite Hcg in Hcg0. inversion Hcg0; subst. unfold dget in Hdl. rewrite Hdl in Hm. exact Hm.
+  - intros t c r Hg. change (dget sm' t c r <> None) in Hg. rewrite Hd in Hg.
+    apply (cellv_existing O). rewrite (frame O a s s' _ t c r Ha Hren (Hnt _ _ _ Hg)).
+    apply (cellv_existing O). apply Hlive. exact Hg.
+  - eapply redo_snoc; [exact Hredo | exact Hag].
+Qed.
+
+
+(* ------------------------------------------------------------------------------------------------ *)
 (* doModifyColumn: ModifyColumn, the conversion delta (if any value changed), the per-column flush.  The three events
    are one step of the invariant: in between, the undo list does not restore the converted cells. *)
 
@@ -853,6 +993,55 @@ Proof.
   specialize (H _ (cd_find_In _ _ _ Ec)). cbn [snd] in H. destruct cd; [reflexivity | discriminate].
 Qed.
 
+Definition touchb (a : action) (t c : name) (r : Z) : bool :=
+  match a with
+  | BulkAddRecord _ t' rows _ => name_eqb t t' && zmem r rows
+  | BulkRemoveRecord _ t' rows => name_eqb t t' && zmem r rows
+  | BulkUpdateRecord _ t' rows cols => name_eqb t t' && zmem r rows && nmem c (map fst cols)
+  | ReplaceTableData _ t' _ _ => name_eqb t t'
+  | AddColumn _ t' c' _ => name_eqb t t' && name_eqb c c'
+  | RemoveColumn _ t' c' => name_eqb t t' && name_eqb c c'
+  | RenameColumn _ t' old new => name_eqb t t' && (name_eqb c old || name_eqb c new)
+  | ModifyColumn _ t' c' _ => name_eqb t t' && name_eqb c c'
+  | AddTable _ t' _ => name_eqb t t'
+  | RemoveTable _ t' => name_eqb t t'
+  | RenameTable _ old new => name_eqb t old || name_eqb t new
+  end.
+
+Lemma touch_touchb : forall a t c r, touch O a t c r -> touchb a t c r = true.
+Proof.
+  intros a t c r H. destruct a; cbn in *;
+    repeat match goal with
+           | H : _ /\ _ |- _ => destruct H
+           | H : _ \/ _ |- _ => destruct H
+           end; subst; rewrite ?name_eqb_refl, ?orb_true_r; cbn;
+    repeat match goal with
+           | H : In _ _ |- _ => first [apply zmem_In in H | apply nmem_In in H]; rewrite H
+           end; reflexivity.
+Qed.
+
+(* no cell with a pending delta is touched by the action *)
+Definition avoidb (a : action) (sm : summary) : bool :=
+  forallb (fun td => forallb (fun cd => forallb (fun ch : change O => negb (touchb a (fst td) (fst cd) (fst ch))) (snd cd))
+                             (td_deltas O (snd td))) (sm_tables O sm).
+
+Lemma delta_get_In : forall (cd : coldelta O) r x, delta_get O cd r = Some x -> In (r, x) cd.
+Proof.
+  induction cd as [|[r0 x0] cd IH]; intros r x H; cbn in H; [discriminate|].
+  destruct (Z.eqb_spec r r0) as [->|Hne]; [inversion H; subst; left; reflexivity | right; apply IH; exact H].
+Qed.
+
+Lemma avoidb_sound : forall a sm, avoidb a sm = true -> forall t c r, touch O a t c r -> dget sm t c r = None.
+Proof.
+  intros a sm H t c r Ht. destruct (dget sm t c r) as [x|] eqn:E; [|reflexivity]. exfalso.
+  unfold dget, delta_of in E. unfold avoidb in H. rewrite forallb_forall in H.
+  destruct (td_find O (sm_tables O sm) t) as [td|] eqn:Et; [|discriminate].
+  specialize (H _ (td_find_In _ _ _ Et)). cbn [fst snd] in H. rewrite forallb_forall in H.
+  destruct (cd_find O (td_deltas O td) c) as [cd|] eqn:Ec; [|discriminate].
+  specialize (H _ (cd_find_In _ _ _ Ec)). cbn [fst snd] in H. rewrite forallb_forall in H.
+  specialize (H _ (delta_get_In _ _ _ E)). cbn [fst] in H. rewrite (touch_touchb _ _ _ _ Ht) in H. discriminate.
+Qed.
+
 Definition rename_okb (a : action) : bool :=
   match a with
   | RenameColumn _ t old new => negb (is_defunct new)
@@ -863,7 +1052,8 @@ Definition rename_okb (a : action) : bool :=
 Definition mixed_event_okb (m : mstate O) (e : event O) : bool :=
   match e with
   | Calc _ t c chs => calc_event_okb O m t c chs
-  | Doc _ a => rename_okb a || (quietb (m_sum O m) && no_loss_b O a (m_doc O m) && act_names_okb O a)
+  | Doc _ a => rename_okb a ||
+                (negb (is_rename O a) && avoidb a (m_sum O m) && no_loss_b O a (m_doc O m) && act_names_okb O a)
   | FlushCol _ t c => no_delta_entry (m_sum O m) t c
   | FlushAll _ => false
   end.
@@ -883,11 +1073,12 @@ Proof.
     + destruct a; try discriminate; cbn [rename_okb] in Hok; apply negb_true_iff in Hok.
       * exact (gi_rename_col _ _ _ _ _ _ _ Hgi Hok H).
       * exact (gi_rename_table _ _ _ _ _ _ Hgi Hok H).
-    + apply andb_true_iff in Hok. destruct Hok as [Hok H3]. apply andb_true_iff in Hok. destruct Hok as [H1 H2].
-      exists (m_doc O m'). eapply gi_doc_quiet; try eassumption.
-      * apply quietb_sound. exact H1.
-      * apply (no_loss_b_sound O). exact H2.
-      * apply (act_names_okb_sound O). exact H3.
+    + apply andb_true_iff in Hok. destruct Hok as [Hok H4]. apply andb_true_iff in Hok. destruct Hok as [Hok H3].
+      apply andb_true_iff in Hok. destruct Hok as [H1 H2]. apply negb_true_iff in H1.
+      eapply gi_doc_frame; try eassumption.
+      * apply avoidb_sound. exact H2.
+      * apply (no_loss_b_sound O). exact H3.
+      * apply (act_names_okb_sound O). exact H4.
   - exists g. eapply gi_calc; [exact Hgi | apply calc_event_okb_sound; exact Hok | exact H].
   - exists g. eapply gi_flushcol_nil; eassumption.
 Qed.
